@@ -271,7 +271,7 @@ def shrink_list(scn, key, min_len=0):
 # --------------------------------------------------------------------------- replay
 
 def write_replay(prop, scn, viol, digest, tag=''):
-    d = os.path.join(VERIF_DIR, 'out', 'replay')
+    d = os.path.join(os.environ.get('DSIM_OUT', os.path.join(VERIF_DIR, 'out')), 'replay')
     os.makedirs(d, exist_ok=True)
     body = {'property': prop, 'scenario': scn, 'violation': viol, 'digest': digest}
     name = '%s-%s%s.json' % (prop, hashlib.sha256(json.dumps(body, sort_keys=True).encode()).hexdigest()[:12], tag)
@@ -425,8 +425,9 @@ def campaign(prop, tier, verif_seed, nruns=None, jobs=None, out=sys.stdout):
     if zero:
         print('warning: probes never hit: %s' % ', '.join(zero), file=out)
         ev['coverage']['probes_never_hit'] = zero
-    os.makedirs(os.path.join(VERIF_DIR, 'evidence'), exist_ok=True)
-    with open(os.path.join(VERIF_DIR, 'evidence', prop + '.json'), 'w') as f:
+    evdir = os.path.join(os.environ['DSIM_OUT'], 'evidence') if os.environ.get('DSIM_OUT') else os.path.join(VERIF_DIR, 'evidence')
+    os.makedirs(evdir, exist_ok=True)
+    with open(os.path.join(evdir, prop + '.json'), 'w') as f:
         json.dump(ev, f, indent=1, sort_keys=True)
     print('runs=%d nontrivial_distinct=%d cycles=%d schedules=%d states=%d faults=%s wall=%.1fs' % (
         nruns, len(digests_nt), agg.cycles, len(agg.schedules), len(agg.states),
